@@ -8,7 +8,7 @@ RULE = ("programs: every binding form that can shadow a builtin name x 5 foldabl
         "dead code, removed branch, non-constant variant); every literal kind as condition of if / ! / ternary / && / || / loop / else-if; "
         "each run with the optimizer off, at budgets 1..5 and default; all must equal the TLA+ reference semantics (which has no "
         "optimizer); a refusal is accepted only as an optimizer error naming the error the constant sub-expression raises; "
-        "non-trivial = shadowing programs and folds whose operands are both literals")
+        "non-trivial = shadowing programs and folds whose operands are both literals; a literal constant as left operand in 4 further positions (used twice, index of a compound assignment, repeated implicitly in a constant group, in a function called twice)")
 
 CONFIGS_Q = ["noopt", "default", "limit1", "limit2"]
 CONFIGS_T = ["noopt", "default", "limit1", "limit2", "limit3", "limit4", "limit5"]
